@@ -1,5 +1,6 @@
 import Infretis.Model.Proto
 import Infretis.Model.Moves
+import Infretis.Model.MovesRun
 open Infretis Infretis.Proto Infretis.Moves Infretis.Engine
 
 def showStatus : Status → String
@@ -98,7 +99,92 @@ def parseWfIn (toks : List String) : Option WfIn :=
 def showWfOut (o : WfOut) : String :=
   s!"ok {b01 o.accept} {showStatus o.status} {o.genSucc} {o.genLen} {o.timeOrigin} {b01 o.returnedOld} {b01 o.oldRewritten} | {showList toString o.path} | {showList showDraw o.draws}"
 
+
+def showOutcome : Outcome → String
+  | .kob => "kob"
+  | .backFail n => s!"backfail {n}"
+  | .wrongEnd => "wrongend"
+  | .forwFail n => s!"forwfail {n}"
+  | .final z b c => s!"final {b01 z} {b01 b} {b01 c}"
+
+def showWfOutcome : WfOutcome → String
+  | .noFrames => "noframes"
+  | .noSegment => "nosegment"
+  | .extTooLong n => s!"exttoolong {n}"
+  | .wrongStart => "wrongstart"
+  | .accepted s n => s!"accepted {s} {n}"
+
+def showRoute : Route → String
+  | .shoot => "shoot" | .wireFencing => "wire_fencing" | .quantisSwap => "quantis_swap_zero"
+  | .retisSwap => "retis_swap_zero" | .keyError => "err:key"
+
+def showMdErr : MdErr → String
+  | .move e => showErr e
+  | .key => "err:key" | .value => "err:value" | .index => "err:index" | .assert => "err:assert"
+
+def optInt? (s : String) : Option (Option Int) := if s = "-" then some none else (parseInt? s).map some
+
+/-- cfg: list(interfaces) list(wf flags 0/1 of mc_moves[1:]) cap ensNum lm1 -/
+def parseMdCfg (toks : List String) : Option (MdCfg × List String) :=
+  match takeList parseInt? toks with
+  | some (intf, rest) =>
+    match takeList parseNat? rest with
+    | some (mv, cap :: en :: lm1 :: rest) =>
+      match optInt? cap, parseInt? en, optInt? lm1 with
+      | some cap, some en, some lm1 =>
+        some ({ interfaces := intf, movesTail := mv.map (fun n => n != 0), cap := cap, ensNum := en, lm1 := lm1 }, rest)
+      | _, _, _ => none
+    | _ => none
+  | none => none
+
+def showMdOne (o : MdOneOut) : String :=
+  let w := match o.weights with
+    | some ws => showList toString ws
+    | none => "-"
+  s!"ok {showStatus o.status} {b01 o.replaced} {o.trialLen} {o.trialMin} {o.trialMax} | {showList toString o.live} | {w}"
+
+def handleExt (toks : List String) : Option String :=
+  match toks with
+  | "outcome" :: v :: rest =>
+    match parseVariant? v, parseShootIn rest with
+    | some v, some i =>
+      match shootOutcome v i with
+      | .ok oc => some s!"{showOutcome oc} => {showStatus (statusOf i.maxlength oc)}"
+      | .error e => some (showErr e)
+    | _, _ => some "bad-op"
+  | "wfoutcome" :: v :: rest =>
+    match parseVariant? v, parseWfIn rest with
+    | some v, some i =>
+      match wfOutcome v i with
+      | .ok oc => some s!"{showWfOutcome oc} => {showStatus (wfStatusOf oc)}"
+      | .error e => some (showErr e)
+    | _, _ => some "bad-op"
+  | ["route", n, hm, mv, q] =>
+    match parseNat? n with
+    | some n =>
+      let mk : MoveKey := if mv = "sh" then .sh else if mv = "wf" then .wf else .other
+      some (showRoute (route n (hm = "1") mk (q = "1")))
+    | none => some "bad-op"
+  | "runmd1" :: v :: rest =>
+    match parseVariant? v, parseMdCfg rest with
+    | some v, some (cfg, kind :: rest) =>
+      let x : Option OneIn :=
+        if kind = "sh" then (parseShootIn rest).map .sh
+        else if kind = "wf" then (parseWfIn rest).map .wf
+        else (takeList parseInt? rest).map (fun p => .other p.1)
+      match x with
+      | some x =>
+        match runMdOne v cfg x with
+        | .ok o => some (showMdOne o)
+        | .error e => some (showMdErr e)
+      | none => some "bad-op"
+    | _, _ => some "bad-op"
+  | _ => none
+
 def handle (toks : List String) : String :=
+  match handleExt toks with
+  | some r => r
+  | none =>
   match toks with
   | "shoot" :: v :: rest =>
     match parseVariant? v, parseShootIn rest with
